@@ -14,6 +14,8 @@ for d in sorted(glob.glob(V + "/seeded/*")):
         continue
     m = json.load(open(d + "/meta.json"))
     det = m.get("detected_by", {})
+    if m.get("neutralised"):
+        continue
     if m.get("benign"):
         # (every related check was run against the benign changes when they were stored; the regression repeats the
         # property's own check and any check that raised an alarm then)
